@@ -65,8 +65,7 @@ def bitIterRun (b : BitVector) (calls : List String) : String :=
 
 /-- (rank, position) pairs of the set bits of a reference sequence -/
 def onePairs (B : List Bool) : List (Nat × Nat) :=
-  let ps := onesPos B
-  (List.range ps.length).map fun r => (r, ps[r]?.getD 0)
+  (onesPos B).zipIdx.map fun p => (p.2, p.1)
 
 def pairStr (p : Nat × Nat) : String := s!"s{p.1},{p.2}"
 
@@ -111,13 +110,13 @@ def evalBv (st : DState) (name : String) (t : List String) : Eval :=
         -- copy_bit_vec: with_len(len, false) then set_bit for every one
         let raw := (onesPos B).foldl (fun v i => v.setBit i true) (RawVec.withLen B.length false)
         put ⟨BitVector.ofRaw raw, B⟩ "bv.copy"
-      | none => { st := st, model := "driver:no-object" }
+      | none => { st := st, model := "panic:no-object" }
     else evalBvQ st name t m
   | _ => evalBvQ st name t m
 where
   evalBvQ (st : DState) (name : String) (t : List String) (m : Mode) : Eval :=
     match st.bvs[name]? with
-    | none => { st := st, model := "driver:no-object" }
+    | none => { st := st, model := "panic:no-object" }
     | some o =>
       let b := o.m
       let B := o.s
@@ -134,7 +133,7 @@ where
       | ["eq", other] =>
         (match st.bvs[other]? with
          | some o2 => res (toString (decide (b = o2.m))) none "bv.eq"
-         | none => res "driver:no-object" none)
+         | none => res "panic:no-object" none)
       | ["len"] => res (rNat b.len) (some (rNat B.length))
       | ["ones"] => res (rNat b.countOnes) (some (rNat (B.count true)))
       | ["zeros"] => res (rNat b.countZeros) (some (rNat (B.count false)))
